@@ -4,6 +4,8 @@ import (
 	"bytes"
 	"context"
 	"fmt"
+	"github.com/attestantio/dirk/core"
+	"github.com/attestantio/dirk/services/lister"
 	"regexp"
 	"sort"
 	"strings"
@@ -92,6 +94,23 @@ func c18Tables() []map[string][]model.PermEntry {
 }
 
 // C18 checks account listing against a reference lister.
+// interposedLister stands for a server that handles requests side by side: between the moment the lister hands its
+// result to the handler and the moment the handler reads it, another client's listing is served in full. Whatever the
+// lister keeps between requests must not show in the first result.
+type interposedLister struct {
+	lister.Service
+}
+
+func (l *interposedLister) ListAccounts(ctx context.Context, credentials *checker.Credentials, paths []string) (core.Result, []e2wtypes.Account) {
+	res, accounts := l.Service.ListAccounts(ctx, credentials, paths)
+	other := &checker.Credentials{Client: "c2", RequestID: "interposed"}
+	if credentials != nil && credentials.Client == "c2" {
+		other.Client = "c1"
+	}
+	_, _ = l.Service.ListAccounts(ctx, other, []string{"W2", "D1", "W1/a.*"})
+	return res, accounts
+}
+
 func C18(tier string) int {
 	run := ev.NewRun("C18", tier, "exploration")
 	rig.Init()
@@ -175,7 +194,7 @@ func C18(tier string) int {
 			run.HarnessErr = err
 			return run.Finish()
 		}
-		handler, err := listerhandler.New(r.Ctx, listerhandler.WithLister(r.Lister))
+		handler, err := listerhandler.New(r.Ctx, listerhandler.WithLister(&interposedLister{Service: r.Lister}))
 		if err != nil {
 			run.HarnessErr = err
 			return run.Finish()
